@@ -92,7 +92,8 @@ def run(pid, a):
     for n in notes:
         print(f"NOTE: property={pid} {n}")
     for o in known:
-        print(f"KNOWN-FINDING: property={pid} rule={o.rule} site={o.site} {o.what}")
+        f = match_known(o, findings)
+        print(f"KNOWN-FINDING: property={pid} rule={o.rule} site={o.site} [{f.get('id', '')}] {f.get('what', o.what)}")
     replay_dir = os.path.join(VERIF_DIR, "evidence", "replay")
     for k, o in enumerate(new):
         path = os.path.join(replay_dir, f"{pid}-{o.rule}-{k}.json")
